@@ -14,6 +14,7 @@ preservation).
 -/
 import FastQr.Proofs.MaskSound
 import FastQr.Model.Template
+import FastQr.Proofs.FinalData
 
 namespace FastQr.Props.C08
 open FastQr Model Spec Finite Proofs
@@ -63,6 +64,32 @@ theorem C08_unmask_same {v a b : Nat} (hv : v < 40) (ha : a < 8) (hb : b < 8) (q
     (hn : q.n = 21 + 4 * v) {r c : Nat} (hr : r < q.n) (hc : c < q.n) :
     (applyMask a (applyMask a q)).get r c = (applyMask b (applyMask b q)).get r c := by
   rw [C08_involution hv ha q hq hn hr hc, C08_involution hv hb q hq hn hr hc]
+
+/-- **C08 (two symbols of the same codewords built with masks a and b)**: for EVERY codeword sequence
+and level, the two final matrices differ on an encoding-region module exactly where the ISO
+conditions of a and b disagree, and are identical on every module that is neither encoding region
+nor format information (finder, separator, timing, alignment, dark module, version information) -/
+theorem C08_final_pair {v a b : Nat} (hv : v < 40) (ha : a < 8) (hb : b < 8) (l : ECL) (bytes : Array Nat)
+    {r c : Nat} (hr : r < Regions.side v) (hc : c < Regions.side v) :
+    ((template v).type r c = tData →
+      ((finalMatrix v bytes l a).value r c != (finalMatrix v bytes l b).value r c) =
+        (maskCond a r c != maskCond b r c)) ∧
+    (Regions.region v r c ≠ .data → Regions.region v r c ≠ .format →
+      (finalMatrix v bytes l a).get r c = (finalMatrix v bytes l b).get r c) := by
+  constructor
+  · intro hd
+    rw [FinalData.finalMatrix_data hv ha l bytes hr hc hd, FinalData.finalMatrix_data hv hb l bytes hr hc hd]
+    cases (placeData (template v) bytes).1.value r c <;> cases maskCond a r c <;> cases maskCond b r c <;> rfl
+  · intro hnd hnf
+    rw [FinalData.finalMatrix_fixed hv ha l bytes hr hc hnd hnf, FinalData.finalMatrix_fixed hv hb l bytes hr hc hnd hnf]
+
+/-- … and un-masking either of them with its own ISO pattern gives the same encoding-region bits -/
+theorem C08_final_unmask {v a b : Nat} (hv : v < 40) (ha : a < 8) (hb : b < 8) (l : ECL) (bytes : Array Nat)
+    {r c : Nat} (hr : r < Regions.side v) (hc : c < Regions.side v) (hd : (template v).type r c = tData) :
+    ((finalMatrix v bytes l a).value r c != maskCond a r c) =
+      ((finalMatrix v bytes l b).value r c != maskCond b r c) := by
+  rw [FinalData.finalMatrix_data hv ha l bytes hr hc hd, FinalData.finalMatrix_data hv hb l bytes hr hc hd]
+  cases (placeData (template v) bytes).1.value r c <;> cases maskCond a r c <;> cases maskCond b r c <;> rfl
 
 /-! non-vacuity: the blank symbol of version 1 is a well-formed matrix of a legal side; mask 0
 flips the light Data cell (9, 9) and leaves the finder cell (0, 0) alone -/
